@@ -101,7 +101,7 @@ Definition include_name (fi : nat) (root_params : mapping) (cls : string) : res 
 
 (** * render_impl: [f] bounds the include depth, [fi] is the interpreter fuel. *)
 Fixpoint render_impl (f fi : nat) (cfg : ncfg) (tbl : list cls_entry)
-         (self : node) (seen : list string) (root : node) {struct f}
+         (self : node) (seen loading : list string) (root : node) {struct f}
   : res (node * list string * node) :=
   match f with
   | 0 => OutOfFuel
@@ -112,14 +112,16 @@ Fixpoint render_impl (f fi : nat) (cfg : ncfg) (tbl : list cls_entry)
            match cs with
            | [] => Ok (seen, root)
            | c :: cs' =>
-               name <- include_name fi (n_params root) c ;;
+               name0 <- include_name fi (n_params root) c ;;
+               let name := abs_class_name (n_loc self) name0 in
                if mem name seen then go cs' seen root
+               else if mem name loading then Err (EIncludeLoop loading name)
                else
                  r <- read_class cfg tbl (n_loc self) name ;;
                  match r with
                  | None => go cs' seen root
                  | Some cn =>
-                     '(_, seen1, root1) <- render_impl f' fi cfg tbl cn seen root ;;
+                     '(_, seen1, root1) <- render_impl f' fi cfg tbl cn seen (loading ++ [name]) root ;;
                      go cs' (seen1 ++ [name]) root1
                  end
            end) (n_classes self) seen root ;;
@@ -160,8 +162,8 @@ Definition node_render (f fi : nat) (cfg : ncfg) (tbl : list cls_entry) (n : nod
   rc <- as_reclass cfg meta ;;
   p0 <- m_insert [] (VStr "_reclass_") (VMap rc) ;;
   let base := {| n_apps := r_empty; n_classes := n_classes n; n_params := p0; n_loc := [] |} in
-  '(base1, seen1, _) <- render_impl f fi cfg tbl base [] empty_node ;;
-  '(n1, _, _) <- render_impl f fi cfg tbl n seen1 base1 ;;
+  '(base1, seen1, _) <- render_impl f fi cfg tbl base [] [] empty_node ;;
+  '(n1, _) <- merge_into n base1 ;;
   render_params fi n1.
 
 (** * Reclass::render_node: discovered node table -> NodeInfo *)
